@@ -19,7 +19,7 @@ use tokio::sync::broadcast;
 pub static DEF: PropDef = PropDef {
     id: "C18",
     level: "exploration",
-    rule: "two real database services, two rooms, three entities, several days; one to three subscribers per instance subscribe before the workload and are drained immediately into an unbounded log (a lagging receiver makes the case inconclusive). Sequential phase: API writes (create, nested create, update moving a row to another day, move between rooms, reference changes, node and reference deletions, stream of mutations), room definition changes and pulls; after each acknowledged operation and the recompute barrier, the (room, entity, day) triples derived from the before/after storage snapshots must all have been named by some data-changed event of that instance, and an accepted room mutation must be followed by a room-modified event carrying the same decisions as the live room. Concurrent phase: 8-24 writers at once on an instance with write_buffer_length 1-4, same inclusion check after the barrier. Only inclusion is checked. non-trivial = case with a deletion, a pull that changed rows, a concurrent phase, and at least two days; distinct = canonical op-kind sequence",
+    rule: "two real database services, two rooms, three entities, several days; one to three subscribers per instance subscribe before the workload and are drained immediately into an unbounded log (a lagging receiver makes the case inconclusive). Sequential phase: API writes (create, nested create, update moving a row to another day, move between rooms, reference changes, node and reference deletions, stream of mutations), room definition changes and pulls; after each acknowledged operation and the recompute barrier, the (room, entity, day) triples derived from the before/after storage snapshots must all have been named by some data-changed event of that instance, and an accepted room mutation must be followed by a room-modified event carrying the same decisions as the live room. Concurrent phase: 8-24 writers at once on an instance with write_buffer_length 1-4, same inclusion check after the barrier. Only inclusion is checked. non-trivial = case with a deletion, a pull that changed rows, a concurrent phase, and at least two days; distinct = canonical op-kind sequence Only what is announced after the monitored operation began counts; every history starts with a row that is alone of its entity in its room and is then moved to the second room.",
     assumptions: &[
         "the barrier (database actor, writer, database actor, event service round trips) orders the check after the emission of the events of every request already acknowledged",
     ],
